@@ -24,6 +24,39 @@ CHECKS = {
  'C18': dict(cat='exploration', ref='DESIGN.md 4 (C18)',
    text="every interleaving decision of 2-4 client tasks is drawn by a seeded cooperative scheduler at lock, pool, store-statement and function-entry yield points; histories are checked for linearizability with porcupine, lock discipline and deadlock are checked during the run; parallel evaluations are compared with solo runs",
    tech="deterministic simulation: seeded cooperative scheduler + porcupine linearizability + lockset + solo-vs-parallel equality"),
+ 'C01': dict(cat='exploration', ref='DESIGN.md 4 (C01)',
+   text="generated safe, stratified programs are evaluated by the real engine under owned map order, a drawn store kind and flags, and compared in both directions with the model of an independent reference evaluator; deciding power comes mostly from the seeded workload and the reference model, the simulation adds exact replay and active search over iteration orders and store kinds",
+   tech="deterministic simulation: seeded programs under simulated map-order schedules vs. independent reference evaluator"),
+ 'C02': dict(cat='exploration', ref='DESIGN.md 4 (C02)',
+   text="as C01 with the generator biased to do-transform rules; the reference folds every aggregating rule over the distinct solutions of its own body",
+   tech="deterministic simulation: seeded aggregating programs under simulated map-order schedules vs. reference group-and-fold"),
+ 'C03': dict(cat='exploration', ref='DESIGN.md 4 (C03)',
+   text="seeded dependency graphs (all 4^9 three-predicate labellings in the thorough tier) are stratified under owned map order; the result is judged by the validity conditions of the statement and an own negative-cycle test",
+   tech="deterministic simulation: seeded/enumerated dependency graphs under simulated map-order schedules vs. own stratification conditions"),
+ 'C04': dict(cat='exploration', ref='DESIGN.md 4 (C04)',
+   text="generated programs are perturbed into unsafe or oddly ordered clauses; an independent binding closure says which must be rejected, accepted programs must evaluate without panic/error to the reference semantics of the clauses as written",
+   tech="deterministic simulation: seeded clause perturbations vs. reference safety judgement and reference semantics"),
+ 'C10': dict(cat='fault_enumeration', ref='DESIGN.md 4 (C10)',
+   text="stored artefacts that were valid when written are truncated, corrupted, tampered with or delivered by a failing/chunking reader at enumerated offsets and pushed through parser, analysis, evaluation under a fact limit and the simplecolumn readers; no panic, no hang (step budget), no unbounded allocation (worker under ulimit -v)",
+   tech="deterministic simulation: stream faults on stored artefacts at enumerated offsets; no-panic / bounded-steps / bounded-memory oracle"),
+ 'C11': dict(cat='exploration', ref='DESIGN.md 4 (C11)',
+   text="generated declared programs over a closed type universe are bounds-checked in error mode under owned map order; accepted ones are evaluated and every stored fact is checked with the library's own run-time type check",
+   tech="deterministic simulation: seeded declared programs under simulated map-order schedules vs. the library's run-time type check"),
+ 'C14': dict(cat='exploration', ref='DESIGN.md 4 (C14)',
+   text="seeded coalesced temporal fact sets and operator/annotation rules on a discrete timeline, evaluation time explicit or read from the simulated clock (with jumps), compared with pointwise reference semantics",
+   tech="deterministic simulation: simulated clock + seeded temporal programs vs. pointwise reference semantics"),
+ 'C15': dict(cat='exploration', ref='DESIGN.md 4 (C15)',
+   text="every fact of an evaluated generated program is explained (post-hoc or from a recording) under several owned map orders; an independent proof checker validates every node, completeness, acyclicity and content-addressed IDs; recorder on/off must not change the result",
+   tech="deterministic simulation: proof search under simulated map-order schedules vs. independent proof checker"),
+ 'C16': dict(cat='exploration', ref='DESIGN.md 4 (C16)',
+   text="seeded command histories with failing commands and pops against the interpreter on a per-run temp directory; after every command the state must answer like a fresh interpreter replaying only the live fragments (refinement against replay of the committed log)",
+   tech="deterministic simulation: seeded command histories with failing commands vs. fresh-replay reference"),
+ 'C17': dict(cat='fault_enumeration', ref='DESIGN.md 4 (C17)',
+   text="the created-fact limit is treated as an injected resource fault and enumerated (every limit 1..L) for generated finite and diverging programs on a counting store wrapper: bounded creation, no silent partial result, diverging programs must report an error",
+   tech="deterministic simulation: fact limit as injected fault enumerated over all cut points, counting-store seam, reference model"),
+ 'C20': dict(cat='exploration', ref='DESIGN.md 4 (C20)',
+   text="generated transform-free programs are evaluated by both engines from equal stores under the same or different owned map orders; stores must be equal",
+   tech="deterministic simulation: differential execution of both evaluators under simulated map-order schedules"),
  'C19': dict(cat='fault_enumeration', ref='DESIGN.md 4 (C19)',
    text="generated stores are written and read back through stub streams with a drawn delivery schedule; write errors, read errors and opener failures are injected at drawn offsets (every offset for small media in the thorough tier); err == nil must imply an exact reload",
    tech="deterministic simulation: stub streams with injected write/read/open faults at enumerated offsets, reload-equality oracle"),
